@@ -413,18 +413,18 @@ func extractAccountPrefix(content string, pos protocol.Position) string {
 		byteCol = len(line)
 	}
 
+	// the prefix is taken from the account name being typed (account names may
+	// contain blanks: 'my assets:ca' is not a fragment of 'assets:...')
 	beforeCursor := strings.TrimSpace(line[:byteCol])
+	if r := calculateTextEditRange(content, pos, ContextAccount); r != nil {
+		beforeCursor = textBeforeCursor(content, *r)
+	}
 
 	lastColon := strings.LastIndex(beforeCursor, ":")
 	if lastColon == -1 {
 		return ""
 	}
-
-	start := strings.LastIndexAny(beforeCursor[:lastColon], " \t")
-	if start == -1 {
-		return beforeCursor[:lastColon+1]
-	}
-	return beforeCursor[start+1 : lastColon+1]
+	return beforeCursor[:lastColon+1]
 }
 
 func getAccountsForPrefix(accounts *analyzer.AccountIndex, prefix string) []string {
@@ -678,6 +678,16 @@ func calculateTextEditRange(content string, pos protocol.Position, ctxType Compl
 		} else {
 			trimmed := strings.TrimLeft(line[:byteCol], " \t")
 			startByte = byteCol - len(trimmed)
+			// neither is the status mark of a posting ('    * assets:cash')
+			if startByte < byteCol && (line[startByte] == '*' || line[startByte] == '!') {
+				afterMark := startByte + 1
+				for afterMark < byteCol && (line[afterMark] == ' ' || line[afterMark] == '\t') {
+					afterMark++
+				}
+				if afterMark > startByte+1 || afterMark == byteCol {
+					startByte = afterMark
+				}
+			}
 			// the bracket of a virtual posting is not part of the account name
 			if startByte < byteCol && (line[startByte] == '(' || line[startByte] == '[') {
 				startByte++
